@@ -650,12 +650,19 @@ impl Database {
             let mut cursor = btree.cursor_first()?;
 
             let mut keys_to_delete: Vec<Vec<u8>> = Vec::new();
+            let mut rows_affected: usize = 0;
             while cursor.valid() {
+                // tombstones of already deleted rows are removed too, but are not rows
+                let value = cursor.value()?;
+                let is_tombstone = value.len() >= crate::mvcc::RecordHeader::SIZE
+                    && crate::mvcc::RecordHeader::from_bytes(value).is_deleted();
+                if !is_tombstone {
+                    rows_affected += 1;
+                }
                 keys_to_delete.push(cursor.key()?.to_vec());
                 cursor.advance()?;
             }
 
-            let rows_affected = keys_to_delete.len();
             total_rows_affected += rows_affected;
 
             let mut btree_mut = BTree::new(&mut *storage, root_page)?;
